@@ -83,26 +83,60 @@ def run_tlc(*a, **kw):
     """tlc.run, repeated once when TLC trips over its own exit race (IllegalStateException: Shutdown in progress
     after 'Model checking completed'): a JVM quirk, not a verdict."""
     res = tlc.run(*a, **kw)
-    if res.rc != 0 and "Shutdown in progress" in res.stdout and not res.violated:
-        res = tlc.run(*a, **kw)
+    if res.rc != 0 and not res.violated and ("Shutdown in progress" in res.stdout or res.rc in (137, -9)):
+        res = tlc.run(*a, **kw)          # also once more when the JVM was killed from outside (OOM killer)
     return res
 
 
-def judge_batched(pid, module, recs, cfg, batch=60000, timeout=2400):
-    """tlc.judge in batches: 16 JVMs each reading a few thousand records keep the memory of a thorough run bounded."""
-    verdicts, st, tr = [], 0, 0
-    for k in range(0, len(recs), batch):
-        v, s1, t1, _ = tlc.judge(pid, module, recs[k:k + batch], cfg, timeout=timeout, tag="judge_%s_b%d" % (module, k // batch))
-        verdicts.extend(v)
-        st += s1
-        tr += t1
-    return verdicts, st, tr
+def judge_batched(pid, module, recs, cfg, per_jvm=4000, heap="1500m", timeout=2400):
+    """Sharded judge with a bounded footprint: at most NPROC single-worker JVMs of `heap` at a time, each reading
+    `per_jvm` records (tlc.judge starts 16 JVMs of 3 GB each on everything at once; several checks running side by
+    side on this machine were OOM-killed that way).  Returns (verdict records, distinct states, generated states)."""
+    import os
+    from concurrent.futures import ThreadPoolExecutor
+    from harness.common import workdir, write_ndjson, NPROC
+    wd = workdir(pid, "judge_" + module)
+    parts = [recs[k:k + per_jvm] for k in range(0, len(recs), per_jvm)]
+
+    def one(k):
+        path = os.path.join(wd, "obs_%d.ndjson" % k)
+        write_ndjson(path, parts[k])
+        r = run_tlc(pid, module, cfg, env={"OBS_FILE": path}, workers=1, timeout=timeout, tag="judge_%s_%d" % (module, k), heap=heap)
+        if r.errors or r.rc != 0:
+            raise Machinery("judge %s shard %d failed rc=%s:\n%s" % (module, k, r.rc, r.stdout[-3000:]))
+        os.unlink(path)
+        return r
+
+    with ThreadPoolExecutor(max_workers=NPROC) as ex:
+        rs = list(ex.map(one, range(len(parts))))
+    out, st, tr = [], 0, 0
+    for r in rs:
+        out.extend(r.records)
+        st += r.distinct
+        tr += r.generated
+    return out, st, tr
+
+
+def rerun_hangs(pid, cases, results, driver):
+    """A case that ran into the wall-clock watchdog (not the step cap) is run again, alone and with a generous
+    watchdog: on a loaded machine a 5 s budget is not evidence that the engine hangs."""
+    slow = [r["id"] for r in results if r["out"].get("o") == "hang" and "wall" in str(r["out"].get("why", ""))]
+    if not slow:
+        return results
+    byid = {c["id"]: c for c in cases}
+    again = []
+    for i in slow:
+        c = dict(byid[i])
+        c["wall"] = 60.0
+        again.append(c)
+    redo = {r["id"]: r for r in engine.run_cases(pid, again, driver=driver, procs=4, tag="eng_retry")}
+    return [redo.get(r["id"], r) for r in results]
 
 
 def run(rep):
     quick = rep.tier == "quick"
     # 1. model-check the reference's own laws while TLC enumerates the case space
-    res = run_tlc(rep.pid, "C06", ENUM_CFG, env={"TIER": rep.tier}, timeout=1500, tag="enum")
+    res = run_tlc(rep.pid, "C06", ENUM_CFG, env={"TIER": rep.tier}, timeout=1500, tag="enum", heap="4g")
     rep.add_tlc("C06.Enum+Laws", res)
     vals, cases = expand(res.records)
     if len(cases) < 5000:
@@ -114,13 +148,14 @@ def run(rep):
     ntrees = 1500 if quick else 30000
     trees = []
     for i in range(ntrees):
-        t = random_tree(rnd, vals[:31] if rnd.random() < 0.7 else vals, rnd.choice([2, 3, 3, 4]))
+        t = random_tree(rnd, vals[:31] if rnd.random() < 0.7 else vals, rnd.choice([1, 2, 3, 3, 4]))
         trees.append({"id": len(cases) + i, "f": "tree", "op": "", "tgt": "", "pre": False, "a": UNDEF, "b": UNDEF, "c": UNDEF,
                       "intrep": False, "tree": t})
     rep.spaces.append({"space": "random expression trees of depth <= 4 over the grid (seeded)", "cases": len(trees), "complete": False})
     allc = cases + trees
     # 2. replay into the engine
     results = engine.run_cases(rep.pid, allc, driver="checks.c06_driver:run_case")
+    results = rerun_hangs(rep.pid, allc, results, "checks.c06_driver:run_case")
     byid = {c["id"]: c for c in allc}
     recs = []
     for r in results:
